@@ -28,20 +28,18 @@ int sqfs_tree_node_get_path(const sqfs_tree_node_t *node, char **out)
 	VERIF_ASSERT(k >= 0, "C06.get_path.pre");
 	++g_get_path_calls;
 	*out = NULL;
-	g_cur = -1;
-	g_cur_ptr = NULL;
 
 	/* the chain ends where the parent pointer is NULL (restore_fstree
 	 * cuts the tree at the unpack root that way) */
 	while (NODE(k)->parent != NULL) {
-		if (!spec_component_ok((const char *)g_nodes[k].name))
+		if (!spec_component_ok((const char *)TN(k)->name))
 			all_ok = false;
 		VERIF_ASSERT(n <= SHAPE_DEPTH, "C06.get_path.pre");
 		chain[n++] = k;
 		k = node_index(NODE(k)->parent);
 		VERIF_ASSERT(k >= 0, "C06.get_path.pre");
 	}
-	if (g_nodes[k].name[0] != '\0')
+	if (TN(k)->name[0] != '\0')
 		all_ok = false;
 
 	if (!all_ok)
@@ -58,13 +56,13 @@ int sqfs_tree_node_get_path(const sqfs_tree_node_t *node, char **out)
 		str[o++] = '/';
 	for (j = n - 1; j >= 0; --j) {
 		str[o++] = '/';
-		for (i = 0; g_nodes[chain[j]].name[i] != '\0'; ++i)
-			*(sqfs_u8 *)&str[o++] = g_nodes[chain[j]].name[i];
+		for (i = 0; TN(chain[j])->name[i] != '\0'; ++i)
+			*(sqfs_u8 *)&str[o++] = TN(chain[j])->name[i];
 	}
 	str[o] = '\0';
 	*out = str;
-	g_cur = node_index(node);
-	g_cur_ptr = str;
+	g_ptr[node_index(node)] = str;
+	g_state[node_index(node)] = 1;
 	return 0;
 }
 
@@ -73,16 +71,18 @@ int sqfs_tree_node_get_path(const sqfs_tree_node_t *node, char **out)
  * C06.get_path.canon_is_shift in get_path.c): a string of the form
  * "/" c1 "/" c2 ... with acceptable components is accepted and loses exactly
  * its leading slash; "/" becomes "".
- *   requires  the argument is the unmodified result of the last
- *             sqfs_tree_node_get_path call        (C06.canon.pre)
+ *   requires  the argument is a result of sqfs_tree_node_get_path that has
+ *             not been canonicalised yet           (C06.canon.pre)
  */
 #ifdef C06_CANON_CONTRACT
 int canonicalize_name(char *filename)
 {
+	int k = env_node_of(filename);
 	size_t i;
 
-	VERIF_ASSERT(filename != NULL && filename == g_cur_ptr,
-		     "C06.canon.pre");
+	VERIF_ASSERT(k >= 0 && g_state[k] == 1, "C06.canon.pre");
+	if (k >= 0)
+		g_state[k] = 2;
 	for (i = 0; i + 1 < C06_PATHMAX; ++i) {
 		filename[i] = filename[i + 1];
 		if (filename[i] == '\0')
